@@ -11,7 +11,7 @@ ENTRIES = []
 RULE = ("all 2^4 present/absent subsets of the four leaf keys (Y.Scale, Y.Offset, Q[S(Q)-1].Y.Scale, Q[S(Q)-1].Y.Offset) and of the "
         "container keys (Merging, Y, Q[S(Q)-1], Q[S(Q)-1].Y) are enumerated by index; random values, 1-3 overlapping S(Q) datasets with Q>0; "
         "non-trivial = at least one option present with a non-identity value")
-DIST = ["subset"]
+DIST = ["subset", "reverse"]
 SHRINK = None
 LEAVES = [("Y", "Scale"), ("Y", "Offset"), ("F", "Scale"), ("F", "Offset")]
 
@@ -21,13 +21,16 @@ def gen(rng, i, tier):
     ds = []
     for _ in range(nd):
         d = sc.mk_dataset(rng, kind="S(Q)", maxn=25)
+        while min(d["x"]) <= 0.005:          # the property speaks of merged data with Q > 0
+            d = sc.mk_dataset(rng, kind="S(Q)", maxn=25)
         d.pop("X", None)
         ds.append(d)
     idx = i % 64 if i >= 0 else int(rng.integers(0, 64))
     present = [(idx >> b) & 1 for b in range(4)]
     containers = (idx >> 4) & 3  # 0: containers only when needed, 1: empty "Y" present, 2: empty "Q[S(Q)-1]" present, 3: no Merging at all
     vals = [float(rng.uniform(0.5, 2.0)), float(rng.uniform(-0.5, 0.5)), float(rng.uniform(0.5, 2.0)), float(rng.uniform(-0.5, 0.5))]
-    return dict(datasets=ds, present=present, containers=containers, vals=vals, subset="".join(map(str, present)) + f"/{containers}")
+    return dict(datasets=ds, present=present, containers=containers, vals=vals, subset="".join(map(str, present)) + f"/{containers}",
+                reverse=bool(rng.random() < 0.5))
 
 
 def opts(case):
@@ -47,6 +50,11 @@ def opts(case):
             m["Q[S(Q)-1]"]["Y"]["Scale"] = v[2]
         if p[3]:
             m["Q[S(Q)-1]"]["Y"]["Offset"] = v[3]
+    if case.get("reverse"):
+        # the same options written in the other key order (Offset before Scale, Q[S(Q)-1] before Y), as in the docstring / a sorted JSON
+        def rev(d):
+            return {k: (rev(v) if isinstance(v, dict) else v) for k, v in reversed(list(d.items()))}
+        m = rev(m)
     return m
 
 
